@@ -173,7 +173,8 @@ def ledger_rules(ctx, m, twf, q, push, pas, agg, tparam, delta):
                   "log argument <- self.%s" % m.f_trades, "log argument is %s" % (render(a_tr) if a_tr else "?"))
         a_p = c.arg_named(pas)
         a_a = c.arg_named(agg)
-        is_table = a_p is not None and any(x[0] == "call" and x[4] in ("get_mut", "index_mut") and x[2] and fld(x[2][0], m.f_orders) for x in walk(a_p))
+        is_table = a_p is not None and any((x[0] == "call" and x[4] in ("get_mut", "index_mut") and x[2] and fld(x[2][0], m.f_orders)) or
+                                           (x[0] == "index" and fld(x[1], m.f_orders)) for x in walk(a_p))
         from_best = a_p is not None and any(x[0] == "call" and x[4] == "best_order_idx" for x in walk(a_p))
         ctx.check(is_table and from_best, "call-sites", "passive-arg|" + fq.fn.short(), c.loc(),
                   "passive argument <- order table entry at the id returned by best_order_idx",
